@@ -10,12 +10,13 @@ import (
 //
 // The password is a whole string literal (which may contain blanks, escaped
 // quotes and '='), a double-quoted word or, for common invalid statements,
-// a bare word. The user name may be a quoted identifier containing '='.
+// a bare word. The user name may be a quoted identifier containing '=', or
+// several bare and quoted parts written together (the scanner accepts abc"u").
 //
 // Both clauses are alternatives of one pattern so that the text is scanned
 // once: a password that itself contains the text of a password clause is
 // consumed as a whole and nothing inside it is taken for another clause.
-var sanitizePassword = regexp.MustCompile(`(?i)(?:password\s+for\s+(?:"(?:[^"\\\n]|\\.)*"|[^\s="']+)\s*=\s*|with\s+password\s*)('(?:[^'\\\n]|\\.)*'|"(?:[^"\\\n]|\\.)*"|[^\s"';]+)`)
+var sanitizePassword = regexp.MustCompile(`(?i)(?:password\s+for\s+(?:"(?:[^"\\\n]|\\.)*"|[^\s="']+)+\s*=\s*|with\s+password\s*)('(?:[^'\\\n]|\\.)*'|"(?:[^"\\\n]|\\.)*"|[^\s"';]+)`)
 
 // Sanitize attempts to sanitize passwords out of a raw query.
 // It looks for patterns that may be related to the SET PASSWORD and CREATE USER
